@@ -8,6 +8,7 @@ import Compress.Drv.Meta
 import Compress.Drv.XFlateOpen
 import Compress.Drv.XFlateWriter
 import Compress.Drv.Prefix
+import Compress.Drv.Flate
 
 open Compress.Util Compress.Drv
 
@@ -23,6 +24,7 @@ def processLine (line : String) : String :=
       | "xr" => handleXr kv
       | "xo" => handleXo kv
       | "xw" => handleXw kv
+      | "fl" => handleFl kv
       | "gp" => handleGp kv
       | "gl" => handleGl kv
       | "dec" => handleDec kv
